@@ -230,5 +230,31 @@ func VerifResp_Lifecycle() {
 	}
 	st := e.TQ.Stats()
 	verifrt.Assert(st.Active == 0 && st.Pending == 0, "C23 work queue reports active or pending tasks after every request ended")
+	// AFTER: nothing of the retired requests lingers in the peer's link
+	// tracking either: a fresh request of the same peer for the same DAG gets
+	// every block the responder has
+	if verifrt.Param("AFTER", 0) == 1 {
+		e.S.Net.NoFaults = true
+		mark := len(e.S.Net.Sent)
+		kf := key{pA, kit.ReqID(9)}
+		e.ReqVerdict[kf] = HookAccept
+		e.NewRequest(pA, 9)
+		Drain()
+		nblk := 0
+		for _, m := range e.S.Net.Sent[mark:] {
+			nblk += len(m.Blocks())
+		}
+		want := 0
+		for _, h := range has {
+			if !h {
+				break
+			}
+			want++
+		}
+		verifrt.Eventf("follow-up request: %s blocks-on-wire=%d want=%d", e.Outcome(kf), nblk, want)
+		verifrt.Assert(len(e.Completed[kf]) == 1, "C05 a request received after the earlier ones were retired was not completed")
+		verifrt.Assert(nblk == want, "C05/C19 a later request of the same peer was not sent every block: tracking state of a retired request was kept")
+		verifrt.Cover("follow-up-request")
+	}
 	verifrt.Reached("end-lifecycle")
 }
